@@ -28,14 +28,15 @@ from ..rigs import launch_rig as R
 INVARIANTS = ['InvProcCount', 'InvExactNodes', 'InvPins', 'InvRefuse', 'InvOrder',
               'InvResFixed']
 PROPERTIES = ['ActHistoryFree']
-DEVS = ['DevDplaceAccum', 'DevPalsHull', 'DevForkShrink', 'DevMptCount', 'DevSrunFirst',
-        'DevFindLast']
+DEVS = ['DevDplaceAccum', 'DevPalsHull', 'DevForkShrink', 'DevForkPrefix', 'DevMptCount',
+        'DevSrunFirst', 'DevFindLast']
 
 # deviation -> (invariants / properties left in the cfg, acceptable verdicts)
 DEV_EXPECT = {
     'DevDplaceAccum': (['InvProcCount', 'InvExactNodes', 'InvPins'], ['ActHistoryFree']),
     'DevPalsHull'   : (None, ['InvPins']),
     'DevForkShrink' : (None, ['InvRefuse', 'InvProcCount']),
+    'DevForkPrefix' : (None, ['InvRefuse', 'InvExactNodes', 'InvOrder']),
     'DevMptCount'   : (None, ['InvProcCount']),
     'DevSrunFirst'  : (None, ['InvExactNodes']),
     'DevFindLast'   : (None, ['InvOrder']),
@@ -44,18 +45,31 @@ DEV_EXPECT = {
 CHUNK = 90          # events per monitor trace (a contiguous segment of one instance's life)
 
 # configured launch orders for find_launcher (rig configuration names)
+# (order, configurations whose creation fails, host name of the agent's node)
 ORDERS = [
-    (['fork', 'mpirun'], []),
-    (['ssh', 'fork', 'srun'], []),
-    (['rsh', 'ssh', 'fork'], []),
-    (['mpiexec_std', 'fork'], []),
-    (['fork', 'ssh', 'mpirun_mpt', 'prte'], ['ssh']),
-    (['jsrun_erf', 'jsrun', 'fork'], ['jsrun_erf']),
-    (['aprun', 'fork', 'ibrun'], ['aprun', 'ibrun']),
-    (['fork', 'ssh'], ['fork']),
-    (['rsh', 'mpirun_dplace', 'ccmrun'], []),
-    (['ssh', 'rsh'], []),
+    (['fork', 'mpirun'], [], 'n1'),
+    (['ssh', 'fork', 'srun'], [], 'n1'),
+    (['rsh', 'ssh', 'fork'], [], 'n1'),
+    (['mpiexec_std', 'fork'], [], 'n1'),
+    (['fork', 'ssh', 'mpirun_mpt', 'prte'], ['ssh'], 'n1'),
+    (['jsrun_erf', 'jsrun', 'fork'], ['jsrun_erf'], 'n1'),
+    (['aprun', 'fork', 'ibrun'], ['aprun', 'ibrun'], 'n1'),
+    (['fork', 'ssh'], ['fork'], 'n1'),
+    (['rsh', 'mpirun_dplace', 'ccmrun'], [], 'n1'),
+    (['ssh', 'rsh'], [], 'n1'),
+    # the agent's host name extends / is the FQDN of another node's name:
+    # FORK must not take that node's tasks, the search falls through
+    (['fork', 'ssh', 'srun'], [], 'n12'),
+    (['fork', 'srun'], [], 'n1.cluster.org'),
+    (['fork', 'rsh', 'mpirun'], [], 'c10'),
+    (['fork', 'mpiexec_rf'], [], 'n12.cluster.org'),
 ]
+
+AGENT_HOSTS = ['n1', 'n12', 'n1.cluster.org', 'c10', 'n12.cluster.org', 'n1.cluster']
+
+# name a is a proper prefix of name b (model constant PrefixRel)
+PREFIX_REL = [('n', 'n1'), ('n1', 'n12'), ('n1', 'n1.cluster.org')]
+MODEL_ALIAS = ['n', 'n12', 'n1.cluster.org']
 
 
 def tla_cfg(spec):
@@ -64,13 +78,17 @@ def tla_cfg(spec):
 
 
 def mc_files(devs=(), maxranks=4, maxhist=3, invariants=None, props=None):
-    orders = [o for o, broken in ORDERS[:4]]
-    mod = ('---- MODULE MC ----\nEXTENDS Launch\nMCConfigs == AllConfigs\nMCOrders == {%s}\n====\n'
-           % ', '.join('<<%s>>' % ', '.join(tla_cfg(R.spec_of(c)) for c in o) for o in orders))
+    orders = [o[0] for o in ORDERS[:4]]
+    mod = ('---- MODULE MC ----\nEXTENDS Launch\nMCConfigs == AllConfigs\nMCOrders == {%s}\n'
+           'MCPrefix == {%s}\n====\n'
+           % (', '.join('<<%s>>' % ', '.join(tla_cfg(R.spec_of(c)) for c in o) for o in orders),
+              ', '.join('<<"%s", "%s">>' % ab for ab in PREFIX_REL)))
     cfg = ('CONSTANTS\n Nodes = {"n1", "n2", "n3"}\n Local = {"n1", "localhost"}\n'
+           ' AliasNodes = {%s}\n PrefixRel <- MCPrefix\n'
            ' MaxRanks = %d\n Thr = 2\n MaxHist = %d\n Configs <- MCConfigs\n Orders <- MCOrders\n'
            ' CoreLayouts = {%s}\n GpuLayouts = {%s}\n'
-           % (maxranks, maxhist, ', '.join('"%s"' % x for x in R.CORE_LAYOUTS),
+           % (', '.join('"%s"' % x for x in MODEL_ALIAS), maxranks, maxhist,
+              ', '.join('"%s"' % x for x in R.CORE_LAYOUTS),
               ', '.join('"%s"' % x for x in R.GPU_LAYOUTS)))
     for d in DEVS:
         cfg += ' %s = %s\n' % (d, 'TRUE' if d in devs else 'FALSE')
@@ -105,7 +123,17 @@ def extra_placements():
     '''outside the model's node set: the executor's node under its other name,
        tasks without executable, the host-list limit itself (42 / 43 entries,
        42 / 43 distinct nodes)'''
-    out = [R.mk(['localhost'], 1, 'one', 'none', False),
+    out = []
+    # nodes whose names are prefix-related to an executor host name: a proper
+    # prefix of it, an extension of it, short name vs FQDN
+    for a in R.ALIAS_NODES + ['n1', 'n2']:
+        out.append(R.mk([a], 1, 'one', 'none', False))
+    for a in R.ALIAS_NODES:
+        out.append(R.mk([a], 1, 'pair', 'own', True))
+    for a, b in [('n1', 'n12'), ('n12', 'n1.cluster.org'), ('n', 'n1'), ('c1', 'c10'),
+                 ('n12.cluster.org', 'n12'), ('n1.cluster', 'n1.cluster.org')]:
+        out.append(R.mk([a, b, a], 1, 'stride', 'none', True))
+    out += [R.mk(['localhost'], 1, 'one', 'none', False),
            R.mk(['localhost'], 1, 'pair', 'own', True),
            R.mk(['localhost', 'n2'], 1, 'one', 'none', True),
            R.mk(['n1'], 1, 'one', 'none', False, exe=False),
@@ -139,6 +167,9 @@ def classify(trace, clause, ev):
     name = '%s/%s/%s' % (spec['m'], spec['fl'], spec['mode'])
     if ev.get('ev') == 'Find':
         return 'find_launcher'
+    if spec['m'] == 'FORK' and clause in ('C09.RefuseNotShrink', 'C09.ExactNodes') \
+            and len(ev['task']['p']) == 1 and ev['task']['p'][0]['node'] not in trace['local']:
+        return '%s: task on a node other than the executor\'s' % name
     if clause == 'C09.Pins':
         if any(not contiguous(r['cores']) for r in ev['task']['p']):
             return '%s: rank with a non-contiguous core set' % name
@@ -150,9 +181,13 @@ def classify(trace, clause, ev):
 
 def describe(trace, detail, ev):
     d = detail or {}
-    return ('cfg=%s placement=%s cmd=%r files=%r'
-            % (trace.get('cfgname'), [(r['node'], r['cores'], r['gpus']) for r in ev['task']['p']][:6]
-               if 'task' in ev else '-', d.get('raw', ''), d.get('files', []))[:900])
+    if ev.get('ev') == 'Find':
+        return ('agent host %s, order=%s can_launch=%s returned #%d for a task on %s'
+                % (trace['local'][0], ev['order'], ev['cans'], ev['sel'],
+                   [r['node'] for r in ev['task']['p']][:6]))
+    return ('cfg=%s (executor on %s) placement=%s can_launch=%s cmd=%r files=%r'
+            % (trace.get('cfgname'), trace['local'][0], [(r['node'], r['cores'], r['gpus']) for r in ev['task']['p']][:6]
+               if 'task' in ev else '-', ev.get('can'), d.get('raw', ''), d.get('files', []))[:900])
 
 
 class Batch(object):
@@ -174,11 +209,11 @@ class Batch(object):
             self.inputs.append({'kind': kind, 'cfgname': cfgname, 'openmp': openmp,
                                 'lo': lo, '_pls': pls})
 
-    def add_find(self, order, broken, pls):
-        self.traces.append(R.find_trace(order, broken, pls))
+    def add_find(self, order, broken, pls, hostname=R.LOCAL):
+        self.traces.append(R.find_trace(order, broken, pls, hostname))
         self.details.append(None)
         self.inputs.append({'kind': 'find', 'order': order, 'broken': broken, '_pls': pls,
-                            'lo': 0})
+                            'hostname': hostname, 'lo': 0})
 
 
 def report(chk, batch, notes=True):
@@ -209,7 +244,7 @@ def report(chk, batch, notes=True):
             pls = inp['_pls'][:inp['lo'] + i + 1]
             obj = {'rig': 'launch', 'kind': inp['kind'], 'clause': clause,
                    'pls': pls if inp['kind'] != 'find' else [inp['_pls'][i]]}
-            for k in ('cfgname', 'openmp', 'order', 'broken'):
+            for k in ('cfgname', 'openmp', 'order', 'broken', 'hostname'):
                 if k in inp:
                     obj[k] = inp[k]
             obj['event'] = ev
@@ -327,9 +362,11 @@ def enum_batch(tier, rng, batch, fresh):
             batch.add_instance(cfgname, pls, fresh,
                                openmp=(cfgname.startswith('jsrun') and inst_no == 1))
     # find_launcher over configured orders
-    ftasks = hist + extra[:5] + rng.sample(plac, 10 if quick else 60)
-    for order, broken in ORDERS:
-        batch.add_find(order, broken, ftasks)
+    single = [p for p in extra if len(p['p']) == 1]
+    ftasks = hist + single + [p for p in extra if not p['exe'] and len(p['p']) > 1] \
+             + extra[-2:] + rng.sample(plac, 10 if quick else 60)
+    for order, broken, host in ORDERS:
+        batch.add_find(order, broken, ftasks, host)
     if not quick:
         names = sorted(R.CONFIGS)
         for _ in range(60):
@@ -340,7 +377,7 @@ def enum_batch(tier, rng, batch, fresh):
                     order.append(c)
             broken = [c for c in order[1:] if rng.random() < 0.25]     # at least one usable
             rng.shuffle(order)
-            batch.add_find(order, broken, rng.sample(ftasks, 12))
+            batch.add_find(order, broken, single + rng.sample(ftasks, 12), rng.choice(AGENT_HOSTS))
 
 
 # ------------------------------------------------------------------------------
@@ -353,7 +390,7 @@ def run(chk, tier, seed):
 
     # ---- 2. design model, exhaustive ---------------------------------------------
     res = tlc.run('Launch', 'MC', 'MC.cfg', workers=8, timeout=900,
-                  extra_files=mc_files(maxhist=1 if quick else 3))
+                  extra_files=mc_files(maxranks=3 if quick else 4, maxhist=1 if quick else 3))
     chk.add_tlc(res, 'exhaustive')
     if not res.ok:
         raise Machinery('design model Launch violates %s (intended design must hold):\n%s'
@@ -427,7 +464,7 @@ def replay(chk, obj):
     batch = Batch()
     try:
         if obj['kind'] == 'find':
-            batch.add_find(obj['order'], obj['broken'], obj['pls'])
+            batch.add_find(obj['order'], obj['broken'], obj['pls'], obj.get('hostname', R.LOCAL))
         else:
             batch.add_instance(obj['cfgname'], obj['pls'], fresh, openmp=obj.get('openmp', False),
                                kind=obj['kind'])
